@@ -56,3 +56,26 @@ Proof.
   induction 1 as [|s r Hs Hr IH]; [reflexivity|].
   cbn [map tpl_render List.concat]. now rewrite (tpl_seg_written_out envs s Hs), IH.
 Qed.
+
+(* ---- the environment map ---- *)
+Lemma env_split_first_eq k v :
+  Forall (fun b => Byte.eqb b tpl_eq = false) k -> env_split (k ++ tpl_eq :: v) = Some (k, v).
+Proof.
+  induction 1 as [|b r Hb Hr IH]; cbn [app env_split].
+  - reflexivity.
+  - now rewrite Hb, IH.
+Qed.
+
+Lemma bytes_eqb_refl' a : bytes_eqb a a = true.
+Proof. induction a as [|x a IH]; [reflexivity|]. cbn. rewrite IH. destruct x; reflexivity. Qed.
+
+(* whatever else the environment holds, the variable set last to K=V is looked up as V — every '='
+   of the value included — and a template action {{ .Envs.K }} renders exactly V *)
+Theorem env_value_rendered rest k v :
+  Forall (fun b => Byte.eqb b tpl_eq = false) k ->
+  tpl_env (env_build (rest ++ [k ++ tpl_eq :: v])) k = v /\
+  tpl_render (env_build (rest ++ [k ++ tpl_eq :: v])) [TEnv k] = TOk (v ++ []).
+Proof.
+  intros Hk. unfold env_build. rewrite fold_left_app. cbn [fold_left].
+  rewrite (env_split_first_eq k v Hk). cbn [tpl_render tpl_seg tpl_env]. now rewrite bytes_eqb_refl'.
+Qed.
